@@ -2,6 +2,7 @@ package core
 
 import (
 	"fmt"
+	"os"
 	"go/constant"
 	"go/token"
 	"math/big"
@@ -458,6 +459,9 @@ func (ff *FuncFacts) globalInit(g *ssa.Global) ssa.Value {
 				}
 			}
 		}
+	}
+	if os.Getenv("ELYSLINT_POLY_DEBUG") != "" {
+		fmt.Fprintf(os.Stderr, "globalInit %s: stores=%d val=%v members=%d\n", g.Name(), n, val, len(pkg.Members))
 	}
 	if n == 1 {
 		return val
